@@ -61,7 +61,7 @@ func genRouteTag(t *rapid.T) routeTag {
 		rt.host = ":" + strconv.Itoa(rapid.IntRange(1, 65535).Draw(t, "port"))
 	} else {
 		rt.host = rapid.SampledFrom([]string{"", "", "example.com", "Example.COM", "api.example.com:8443", "*.example.com", "$DC.example.com", "${DC}.x", "[v2.example.com", "{a.example.com", "v[12].example.com", "a{b,c}.example.com", "a\\b.example.com"}).Draw(t, "host")
-		rt.path = rapid.SampledFrom([]string{"/", "/a", "/a/b", "/Foo", "/ü", "/a*", "/[a", "/{x", "/a b"[:2], "/$DC/x"}).Draw(t, "path")
+		rt.path = rapid.SampledFrom([]string{"/", "/a", "/A", "/a/b", "/Foo", "/foo", "/FOO", "/ü", "/a*", "/[a", "/{x", "/a b"[:2], "/$DC/x"}).Draw(t, "path")
 	}
 	for i, n := 0, rapid.IntRange(0, 3).Draw(t, "nopts"); i < n; i++ {
 		switch rapid.IntRange(0, 9).Draw(t, "optkind") {
